@@ -13,6 +13,7 @@ import XlModel.Lemmas.DateDecode
 import XlModel.Lemmas.DateCount
 import XlModel.Lemmas.DateOrder
 import XlModel.Lemmas.DateFloat
+import XlModel.Lemmas.DateFloatDec
 
 namespace XlModel.Props.C19
 open XlModel XlModel.Date XlModel.Date.Impl
@@ -487,6 +488,101 @@ theorem serial_roundtrip_stdmodel (R : Rounding) (c : Civil) (off : Int) (date19
   have he := encode_error R (instantOf c) date1904 hN
   exact serial_roundtrip c off date1904 _ ⟨hv, h0, h1, m0, m1, s0, s1, hns0⟩ hr
     (encode_nonneg R (instantOf c) date1904 hN) (le_trans he (encTol_le_decTol _))
+
+/-- "nanosecond fraction with rounding epsilon, Julian path below serial 61" THROUGH THE FLOAT
+OPERATIONS: `Impl.timeFromExcelTimeF` spells out every float64 operation of `timeFromExcelTime`
+(`x + OFFSET`, the two `Modf`, `shiftJulianToNoon`, `c1day*fraction + 500`; `x − float64(int(x)) + 1e-9`,
+`nanosInADay*floatPart`) and is compared with the Go function on arbitrary floats (`decf` lines).
+For EVERY rounding function obeying the standard model that is monotone and exact on integers and
+half-integers up to 2⁵³ (`Rounding2`, no axiom), every day D ≥ 0, second k, and x < 2²² within
+`decTolF D` (2⁻⁴⁰ day up to day 62 — the microsecond rounding leaves ±500 ns, the roundings use
+≤ 160 ns —, 2⁻¹⁹ day above) of D + k/86400, the float-level decoder returns exactly day D, second k -/
+theorem decode_float_tolerant (R : Rounding2) (x : Rat) (date1904 : Bool) (D k : Int) (hD0 : 0 ≤ D)
+    (hk0 : 0 ≤ k) (hk : k < 86400) (hxmax : x ≤ 4194304)
+    (hx : |x - ((D : Rat) + (k : Rat) / 86400)| ≤ decTolF D) :
+    timeFromExcelTimeF (ratOps2 R) x date1904 =
+      (if date1904 then epoch1904 else epoch1900) + (D * 86400000000000 + k * 1000000000) :=
+  decodeF_both R x date1904 D k hD0 hk0 hk hxmax hx
+
+/-- the laws of `Rounding2` are satisfiable -/
+theorem rounding2_satisfiable : ∃ R : Rounding2, ∀ q : Rat, R.rnd q = q := ⟨Rounding2.exact, fun _ => rfl⟩
+
+/-- THE ROUND TRIP THROUGH THE REAL FLOAT PATH, both date systems, the whole property range
+(1900-03-01 resp. 1904-01-01 00:00:00 … 9999-12-31 23:59:59), every clock reading and zone offset:
+under the stated model of float64, the value is stored as a number, the stored float x (computed by
+the float-level encoder) is not negative — so `ExcelDateToTime` accepts it — and the float-level
+decoder reads x back as exactly the original wall clock.  No error bound is assumed any more: the
+encoder's (`encode_error`) is inside the decoder's (`decode_float_tolerant`). -/
+theorem serial_roundtrip_float (R : Rounding2) (c : Civil) (off : Int) (date1904 : Bool) (hw : ValidWall c)
+    (hr : if date1904 then -24107 ≤ daysFromCivil c.y c.m c.d else -25508 ≤ daysFromCivil c.y c.m c.d)
+    (hr2 : daysFromCivil c.y c.m c.d ≤ 2932896) :
+    setCellTime (instantOf c - off * nsPerSec) off date1904 = .num (timeToExcelTimeNs (instantOf c) date1904) ∧
+    0 ≤ timeToExcelTimeF (ratOps R.toRounding) (instantOf c) date1904 ∧
+    civilOf (timeFromExcelTimeF (ratOps2 R) (timeToExcelTimeF (ratOps R.toRounding) (instantOf c) date1904) date1904) = c := by
+  refine ⟨stored_numeric c off date1904 hw hr, ?_⟩
+  obtain ⟨hv, h0, h1, m0, m1, s0, s1, hns0⟩ := hw
+  have hc : c = { y := c.y, m := c.m, d := c.d, h := c.h, mi := c.mi, s := c.s, ns := 0 } := by
+    cases c; simp only [] at hns0; subst hns0; rfl
+  have hclosed := serial_daycount_closed c.y c.m c.d c.h c.mi c.s date1904 hr h0 m0 s0
+  rw [← hc] at hclosed
+  have hN : timeToExcelTimeNs (instantOf c) date1904 < 2958466 * 86400000000000 := by
+    rw [hclosed]; cases date1904
+    · simp only [Bool.false_eq_true, if_false]; omega
+    · simp only [if_true]; omega
+  have he := encode_error R.toRounding (instantOf c) date1904 hN
+  refine ⟨encode_nonneg R.toRounding (instantOf c) date1904 hN, ?_⟩
+  generalize timeToExcelTimeF (ratOps R.toRounding) (instantOf c) date1904 = x at he
+  unfold timeToExcelTime at he
+  rw [hclosed] at he
+  generalize hDdef : daysFromCivil c.y c.m c.d - (if date1904 then -24107 else -25569) = D at he
+  have hD0 : 0 ≤ D := by
+    rw [← hDdef]; cases date1904
+    · simp only [Bool.false_eq_true, if_false] at hr ⊢; omega
+    · simp only [if_true] at hr ⊢; omega
+  have hDmax : D ≤ 2958465 := by
+    rw [← hDdef]; cases date1904
+    · simp only [Bool.false_eq_true, if_false]; omega
+    · simp only [if_true]; omega
+  have hk0 : 0 ≤ c.h * 3600 + c.mi * 60 + c.s := by omega
+  have hk : c.h * 3600 + c.mi * 60 + c.s < 86400 := by omega
+  generalize hkdef : c.h * 3600 + c.mi * 60 + c.s = k at *
+  have hd : Facts.C19.dayNanoseconds = 86400000000000 := by decide
+  have hq : ((D * 86400000000000 + k * 1000000000 : Int) : Rat) / (Facts.C19.dayNanoseconds : Rat)
+      = (D : Rat) + (k : Rat) / 86400 := by
+    rw [hd]; push_cast; ring
+  rw [hq] at he
+  -- encTol ≤ decTolF, and x < 2²²
+  have htol : encTol (D * 86400000000000 + k * 1000000000) ≤ decTolF D := by
+    have hnd : nsPerDay = 86400000000000 := by decide
+    unfold encTol decTolF
+    rw [hnd]
+    by_cases hs : D * 86400000000000 + k * 1000000000 < 64 * 86400000000000
+    · rw [if_pos hs]; split
+      · exact le_refl _
+      · rw [pow2_40, pow2_19]; norm_num
+    · rw [if_neg hs, if_neg (by omega), pow2_30, pow2_19]; norm_num
+  have hx := le_trans he htol
+  have hxmax : x ≤ 4194304 := by
+    have hhi := (abs_le.mp he).2
+    have hDq : (D : Rat) ≤ 2958465 := by exact_mod_cast hDmax
+    have hkq : (k : Rat) / 86400 ≤ 1 := by
+      rw [div_le_one (by norm_num)]; exact_mod_cast (show k ≤ 86400 by omega)
+    have ht : encTol (D * 86400000000000 + k * 1000000000) ≤ 1 := by
+      unfold encTol; split
+      · rw [pow2_40]; norm_num
+      · rw [pow2_30]; norm_num
+    linarith
+  rw [decode_float_tolerant R x date1904 D k hD0 hk0 hk hxmax hx]
+  obtain ⟨e0, e4, _, _⟩ := epochs_ok
+  have hinst : (if date1904 then epoch1904 else epoch1900) + (D * 86400000000000 + k * 1000000000)
+      = instantOf { y := c.y, m := c.m, d := c.d, h := c.h, mi := c.mi, s := c.s, ns := 0 } := by
+    unfold instantOf; simp only []
+    have hns : nsPerSec = 1000000000 := by decide
+    rw [hns, ← hDdef, e0, e4]
+    cases date1904
+    · simp only [Bool.false_eq_true, if_false]; omega
+    · simp only [if_true]; omega
+  rw [hinst, civilOf_instantOf c.y c.m c.d c.h c.mi c.s hv h0 h1 m0 m1 s0 s1, ← hc]
 
 /-- FIXED (known_findings.d key `enc:zero-serial-stored-as-text`): in the 1904 system the first
 instant of the range, 1904-01-01T00:00:00, read in any zone, is now stored as the number 0 (it used to
